@@ -11,7 +11,7 @@ CONSTANTS MaxCalls,      \* budget of tag/view API calls
           Invalid,       \* TRUE: also issue calls that must be rejected (C11)
           Crashes,       \* TRUE: also take crash copies of the data directory (C12; no effect on the model state)
           Restarts,      \* TRUE: the process may be killed between two steps and restarted (C12; spends a call)
-          Extra          \* subset of {"rename", "color", "settings", "convdir", "mergefail"}: further calls / environment events to issue
+          Extra          \* subset of {"rename", "color", "settings", "convdir", "mergefail", "badcap"} ("badcap" only selects the capture set MCCapsBad in the configuration): further calls / environment events to issue
 
 VARIABLES clock, calls,
           lost,          \* history: captures that were only queued when the process was killed (never imported afterwards)
@@ -22,6 +22,7 @@ mcvars == <<vars, clock, calls, lost, fkey, epoch>>
 
 \* ---- the world (the Go harness has the same one: harness/manager/world_test.go) ----
 MCCaps   == {1, 2, 3}
+MCCapsBad == {1, 2, 3, 91}         \* ... plus an unreadable capture file (Manager.tla, Bad)
 MCConns  == {1, 2, 3}
 MCPieces == [c \in MCConns |-> CASE c = 1 -> {1, 2} [] c = 2 -> {2, 3} [] c = 3 -> {1}]
 MCPort   == [c \in MCConns |-> CASE c = 1 -> 80 [] c = 2 -> 81 [] c = 3 -> 80]
@@ -111,7 +112,9 @@ NameOrderIsServeOrder ==
     /\ \A f, g \in DOMAIN files : f # g => fkey[f] # fkey[g]
     /\ \A i, j \in DOMAIN indexes : i < j => LexLess(fkey[indexes[i]], fkey[indexes[j]])
 Step(e) ==
-    CASE e.a = "ApiImport"     -> ApiImport(e.k) /\ Free
+    \* (an unreadable capture never becomes known: the upload of one counts as a call, or it could be uploaded for ever;
+    \* the real upload refuses a name that exists in the capture directory)
+    CASE e.a = "ApiImport"     -> IF Bad(e.k) THEN Budget /\ ApiImport(e.k) /\ Spend ELSE ApiImport(e.k) /\ Free
       [] e.a = "ImportCompute" -> ImportCompute(FileName(clock + 1)) /\ NewFile(FileName(clock + 1), <<clock + 1>>)
       [] e.a = "ImportDone"    -> (\E p \in AnyP : ImportDone(p)) /\ Free
       [] e.a = "TagCompute"    -> TagCompute /\ Free
@@ -169,7 +172,7 @@ StreamsKeptStep ==
         /\ settings'.hooks = settings.hooks /\ settings'.cfg = settings.cfg /\ Range(settings'.eps) = Range(settings.eps)
 StreamsKeptProp == [][StreamsKeptStep]_mcvars
 
-EnvDone == calls = MaxCalls /\ Caps \subseteq known \cup Range(queue) /\ views = <<>>
+EnvDone == calls = MaxCalls /\ {k \in Caps : ~Bad(k)} \subseteq known \cup Range(queue) /\ views = <<>>
 JobNext == \E e \in JobEvents : Step(e)
 MCFairSpec == MCSpec /\ WF_mcvars(JobNext) /\ WF_mcvars(\E v \in DOMAIN views : ViewRelease(v) /\ Free)
 Settles == [](EnvDone => <>Settled)
